@@ -19,6 +19,7 @@ OthersThorough == {0, 1, 128, 255}
 \* half-float offsets: zero/subnormal, -zero, one, inf/nan (+-), largest
 OffHiQuick == {0, 128, 3, 4, 60, 188, 123, 124, 126, 252, 255}
 LhPosQuick == {1, 5}
+LhPosOne == {5}
 LhPosAll == 1..6
 KFp16 == {"fp16"}
 KQuat == {"quat"}
